@@ -63,7 +63,7 @@ def corpus_fixed():
         op = p[:-4] + ".opts.json"
         if os.path.exists(op):
             opts = json.load(open(op))
-        out += _both_endian("f_" + name, open(p).read(), opts, "fixed", p)
+        out += _both_endian("f_" + name, open(p, newline="").read(), opts, "fixed", p)
     return out
 
 
@@ -139,7 +139,7 @@ def stage_gen(tier, seed=0):
         ents = corpus(tier, seed)
         index = []
         for e in ents:
-            with open(os.path.join(src, e.name + ".pdl"), "w") as f:
+            with open(os.path.join(src, e.name + ".pdl"), "w", newline="") as f:
                 f.write(e.text)
             if e.opts:
                 with open(os.path.join(src, e.name + ".opts.json"), "w") as f:
@@ -170,7 +170,7 @@ class Gen:
         return next(e for e in self.index if e["name"] == name)
 
     def text(self, name):
-        return open(os.path.join(self.dir, "pdl", name + ".pdl")).read()
+        return open(os.path.join(self.dir, "pdl", name + ".pdl"), newline="").read()
 
     def model(self, name):
         if name not in self._models:
